@@ -119,7 +119,10 @@ def handle_fidelity(lines, prop):
             kinds[k] = kinds.get(k, 0) + 1
     for k, n in sorted(kinds.items())[:12]:
         print(f"SPEC-DRIFT {prop} CfbHandle does not predict the handle's cache state: {k} x{n}")
-    return {"handle_cache_states_compared_with_CfbHandle": compared, "cache_drift": kinds}
+    refills = sum(int(m.group(1)) for m in (re.match(r'^<<"HREFILLS", (\d+)>>', ln) for ln in lines) if m)
+    return {"handle_cache_states_compared_with_CfbHandle": compared,
+            "refills_whose_backend_read_count_CfbChainIO_predicted": refills - sum(n for k, n in kinds.items() if k.startswith("backend-reads")),
+            "refills_compared": refills, "cache_drift": kinds}
 
 
 def check_c06(tier, seed):
@@ -192,6 +195,8 @@ def check_c12(tier, seed):
     out = Outcome("C12", tier, seed)
     rng = random.Random(seed)
     design_handle(out, [(3, 3, 1)] + ([(3, 4, 1), (2, 3, 2)] if tier == "thorough" else []))
+    from .checks import design_chainio
+    design_chainio(out, 3, 2 if tier == "quick" else 3, 2 if tier == "quick" else 3)
     wl = [hgens.ro_workload(3, 1024), hgens.ro_workload(4, None)]
     if tier == "thorough":
         wl += [hgens.ro_workload(3, None), hgens.ro_workload(4, 1024), hgens.ro_workload(3, 2560)]
